@@ -16,7 +16,7 @@ use refchess::{Color, Kind, Pos};
 use serde_json::{json, Value};
 use std::cell::Cell;
 
-pub const RULE: &str = "positions as in C05 (small quiescence trees, uninterrupted search of T nodes) x expiry points: ALL k in 1..T-1 when T <= the enumeration bound (exhaustive over crash points for that position), otherwise generated k stratified over the search; variants with 1..3 interrupted searches in a row (different k, depth or a neighbouring position of the same game) before the completed follow-up. For every interruption: fresh Searcher, node-count deadline k, find_best_move (interrupted). Part 'last-iteration': many positions (tiny ones searched to depth 5..7, small ones to 3..5), 14 deadlines each, all inside the LAST iteration (its start is read from the engine's own info record). Oracle: (1) repetition-history snapshot after == before; (2) every table entry left behind is a true (depth,bound,score) claim about the reference minimax value of its position; (3) a completed follow-up fixed-depth search reports the reference value and a move attaining it (judged when no deeper cached entry was reused); (4) on K v K, K+N v K, K+B v K no follow-up of any depth reports |score| >= 32767. Non-trivial = 1 <= k < T and the interrupted search stored >= 1 entry; distinct by (FEN, depth, k-sequence).";
+pub const RULE: &str = "positions as in C05 (small quiescence trees, uninterrupted search of T nodes) x expiry points: ALL k in 1..T-1 when T <= the enumeration bound (exhaustive over crash points for that position), otherwise generated k stratified over the search; variants with 1..3 interrupted searches in a row (different k, depth or a neighbouring position of the same game) before the completed follow-up. For every interruption: fresh Searcher, node-count deadline k, find_best_move (interrupted). Part 'last-iteration': many positions (tiny ones, pawn endings above all, searched to depth 5..7, small ones to 3..5; only positions whose uninterrupted search reuses no deeper cached result), 14 deadlines each, all inside the LAST iteration (its start is read from the engine's own info record). Oracle: (1) repetition-history snapshot after == before; (2) every table entry left behind is a true (depth,bound,score) claim about the reference minimax value of its position; (3) a completed follow-up fixed-depth search reports the reference value and a move attaining it (judged when no deeper cached entry was reused); (4) on K v K, K+N v K, K+B v K no follow-up of any depth reports |score| >= 32767. Non-trivial = 1 <= k < T and the interrupted search stored >= 1 entry; distinct by (FEN, depth, k-sequence).";
 
 thread_local! {
     static REF_CAP: Cell<u64> = Cell::new(60_000);
@@ -296,34 +296,85 @@ fn judge_bare(p: &Pos, d: u8, ks: &[u64], fd: u8, stats: &mut Stats) -> Verdict 
 
 /// Part 'last-iteration': MANY positions, few expiry points each, all of them inside the LAST
 /// iteration of a deeper iterative search (where an engine decides what to keep of an unfinished
-/// iteration): tiny positions searched to depth 5..7, small ones to 3..5.  The node count at which
+/// iteration): tiny positions (pawn endings above all) searched to depth 5..7, small ones to 3..5, each probed first: only positions whose uninterrupted search reuses no deeper cached result are used.  The node count at which
 /// the last-but-one iteration completed is read from the engine's own info record; 14 deadlines are
 /// spread over the rest.  Same oracle (history snapshot, audit of every entry left behind,
 /// completed follow-up).
 fn check_last_iteration(bytes: &[u8], stats: &mut Stats) -> Verdict {
     let mut s = Src::new(bytes);
-    let p = match s.weighted(&[45, 25, 30]) {
-        0 => {
-            let n = 1 + s.below(2);
-            gen::g_place(&mut s, n)
+    // Candidates are probed with the uninterrupted search first: a position is used only when that
+    // search reused NO deeper cached result (at depth >= 5 most positions do, through four-ply
+    // shuffles back to the root; then neither the audit nor the follow-up can be judged) — so the
+    // deadlines are spent where the oracle is exact.  Pawn endings, where most moves cannot be
+    // taken back, are the main supply for the deep searches.
+    let mut chosen = None;
+    for _try in 0..8 {
+        let p = match s.weighted(&[40, 20, 15, 25]) {
+            0 => {
+                // king and pawns
+                let mut q = Pos::empty();
+                q.stm = if s.bool() { Color::W } else { Color::B };
+                let wk = s.below(64) as u8;
+                let mut bk = s.below(64) as u8;
+                let adj = |a: u8, b: u8| ((a % 8) as i32 - (b % 8) as i32).abs() <= 1 && ((a / 8) as i32 - (b / 8) as i32).abs() <= 1;
+                let mut g = 0;
+                while (adj(wk, bk) || wk == bk) && g < 64 {
+                    bk = (bk + 23) % 64;
+                    g += 1;
+                }
+                q.sq[wk as usize] = Some((Color::W, Kind::K));
+                q.sq[bk as usize] = Some((Color::B, Kind::K));
+                for _ in 0..1 + s.below(4) {
+                    let sq = 8 + s.below(48) as u8;
+                    if q.sq[sq as usize].is_none() {
+                        q.sq[sq as usize] = Some((if s.bool() { Color::W } else { Color::B }, Kind::P));
+                    }
+                }
+                gen::repair(&mut q);
+                q
+            }
+            1 => {
+                let n = 1 + s.below(2);
+                gen::g_place(&mut s, n)
+            }
+            2 => {
+                let n = 2 + s.below(2);
+                gen::g_place(&mut s, n)
+            }
+            _ => gen::g_small(&mut s).0,
+        };
+        if !p.is_valid() || p.legal_moves().is_empty() {
+            continue;
         }
-        1 => {
-            let n = 2 + s.below(2);
-            gen::g_place(&mut s, n)
+        let men = p.men();
+        let d: u8 = match men {
+            0..=4 => 5 + s.below(3) as u8,
+            5..=6 => 4 + s.below(4) as u8,
+            7 => 3 + s.below(2) as u8,
+            8..=10 => 3,
+            _ => 2 + s.below(2) as u8,
+        };
+        // the uninterrupted search: total nodes, the nodes at which each iteration completed, and
+        // whether it reused a deeper cached result
+        let mut s0 = Searcher::new();
+        s0.verif_set_hard_cap(Some(400_000));
+        let b = eng::to_board(&p);
+        if std::panic::catch_unwind(std::panic::AssertUnwindSafe(|| s0.find_best_move(&b, d, None))).is_err() {
+            stats.exclude("candidate: uninterrupted search larger than the per-case bound");
+            continue;
         }
-        _ => gen::g_small(&mut s).0,
-    };
-    if p.legal_moves().is_empty() {
-        stats.exclude("terminal root");
-        return Ok(());
+        if s0.verif.tt_deeper_hits.get() > 0 {
+            stats.exclude("candidate: the uninterrupted search reuses a deeper cached result");
+            continue;
+        }
+        let t = s0.verif_nodes();
+        let infos = s0.verif_timer().verif.infos.borrow().clone();
+        chosen = Some((p, d, t, infos));
+        break;
     }
-    let men = p.men();
-    let d: u8 = match men {
-        0..=4 => 5 + s.below(3) as u8,
-        5 => 4 + s.below(3) as u8,
-        6..=7 => 3 + s.below(2) as u8,
-        8..=10 => 3,
-        _ => 2 + s.below(2) as u8,
+    let Some((p, d, t, infos)) = chosen else {
+        stats.exclude("no candidate without deeper reuse found in 8 tries");
+        return Ok(());
     };
     let fen = eng::fen(&p);
     let mut rs = RefSearch::new(REF_CAP.with(|c| c.get()).max(600_000));
@@ -331,17 +382,6 @@ fn check_last_iteration(bytes: &[u8], stats: &mut Stats) -> Verdict {
         stats.exclude(abort_reason(&a));
         return Ok(());
     }
-    // the uninterrupted search: total nodes and the nodes at which each iteration completed
-    let mut s0 = Searcher::new();
-    s0.verif_set_hard_cap(Some(400_000));
-    let b = eng::to_board(&p);
-    if std::panic::catch_unwind(std::panic::AssertUnwindSafe(|| s0.find_best_move(&b, d, None))).is_err() {
-        stats.exclude("uninterrupted search larger than the per-case bound");
-        return Ok(());
-    }
-    let t = s0.verif_nodes();
-    let infos = s0.verif_timer().verif.infos.borrow().clone();
-    drop(s0);
     let before_last = infos.iter().filter(|i| i.0 + 1 == d).map(|i| i.2).max().unwrap_or(0);
     if t < before_last + 3 {
         stats.exclude("last iteration too small to interrupt");
@@ -354,8 +394,12 @@ fn check_last_iteration(bytes: &[u8], stats: &mut Stats) -> Verdict {
     for i in 0..14u64 {
         let k = before_last + 1 + (s.u16() as u64 + i * 65536) * span / (14 * 65536);
         let k = k.clamp(1, t - 1);
+        let judged0 = stats.classes.get("follow_ups_judged").copied().unwrap_or(0);
         judge_sequence(&p, d, &[k], t, "last-iteration", &mut rs, &tree, stats)?;
         stats.class("deadlines_inside_the_last_iteration");
+        if stats.classes.get("follow_ups_judged").copied().unwrap_or(0) > judged0 {
+            stats.class(&format!("last_iteration_follow_up_judged_at_depth_{}", d));
+        }
     }
     stats.sample(|| json!({"fen": fen, "depth": d, "uninterrupted_nodes": t, "last_but_one_iteration_completed_at_node": before_last, "deadlines": 14}));
     Ok(())
